@@ -1,6 +1,7 @@
 package tags
 
 import (
+	"errors"
 	"io"
 	"path/filepath"
 
@@ -24,9 +25,26 @@ func includeTag(source string) (func(io.Writer, render.Context) error, error) {
 		filename := filepath.Join(filepath.Dir(ctx.SourceFile()), rel)
 		s, err := ctx.RenderFile(filename, map[string]any{})
 		if err != nil {
+			if e, ok := err.(render.Error); ok && (e.Cause() == errLoopBreak || e.Cause() == errLoopContinueLoop) {
+				// a break or continue outside a loop of the included template is an error of that
+				// template; it is not meant for a loop around the include tag
+				return strayLoopControl{e, errors.New(e.Cause().Error())}
+			}
 			return err
 		}
 		_, err = io.WriteString(w, s)
 		return err
 	}, nil
 }
+
+// strayLoopControl is the error of an included template that uses break or continue
+// outside a loop, without the cause by which a loop recognises its own break.
+type strayLoopControl struct {
+	err   render.Error
+	cause error
+}
+
+func (e strayLoopControl) Error() string   { return e.err.Error() }
+func (e strayLoopControl) Path() string    { return e.err.Path() }
+func (e strayLoopControl) LineNumber() int { return e.err.LineNumber() }
+func (e strayLoopControl) Cause() error    { return e.cause }
